@@ -14,6 +14,8 @@ B_direct  == << Blk("ok", 2, 2, 0), Blk("direct", 2, 2, 0), Blk("ok", 1, 1, 0) >
 B_direrr  == << Blk("ok", 1, 2, 0), Blk("direct", 2, 2, 2) >>
 B_empty   == << Blk("ok", 1, 0, 0), Blk("ok", 1, 1, 0), Blk("ok", 1, 0, 0) >>
 B_sim4    == << Blk("ok", 2, 2, 0), Blk("ok", 3, 2, 0), Blk("ok", 1, 3, 3), Blk("ok", 2, 1, 0) >>
+B_cat     == << Blk("ok", 1, 1, 0), Blk("ok", 2, 1, 0) >>
+FullFile == FullLen
 B_ok4     == << Blk("ok", 2, 2, 0), Blk("ok", 1, 1, 0), Blk("ok", 1, 1, 0), Blk("ok", 2, 2, 0) >>
 
 CallBound == m.calls <= MaxCalls
@@ -50,7 +52,7 @@ FailedWorkerNotReused ==
 \* queue discipline
 QueueOk ==
     /\ Len(c.outq) <= BufsLimit
-    /\ \A i \in 1..Len(c.outq) : c.outq[i].fin /\ c.outq[i].ret = "END" => c.outq[i].pos = Blocks[c.outq[i].b].outsz
+    /\ \A i \in 1..Len(c.outq) : c.outq[i].fin /\ c.outq[i].ret = "END" => c.outq[i].pos = GB(c.outq[i].b).outsz
     /\ \A i, j \in 1..Len(c.outq) : i < j => c.outq[i].b < c.outq[j].b
     /\ c.memInUse + OutqMem(c.outq) <= MemT
 
